@@ -367,14 +367,14 @@ theorem evalRec_const : ∀ (sizes : List Nat) (x : List ℚ) (c : ℚ), InRange
 
 /-- vertex reproduction -/
 theorem evalRec_vertex : ∀ (sizes : List Nat) (idx : Idx) (K : W), idx ∈ allIdx sizes →
-    evalRec sizes (idx.map (fun v => (v : ℚ))) K = K idx := by
+    evalRec sizes (idx.map (fun (v : Nat) => (v : ℚ))) K = K idx := by
   intro sizes
   induction sizes with
   | nil => intro idx K h; rw [mem_allIdx_nil.mp h]; simp [evalRec]
   | cons n ns ih =>
     intro idx K h
     obtain ⟨i, t, rfl, hi, ht⟩ := allIdx_cons_exists h
-    show evalRec (n :: ns) (((i : ℚ)) :: t.map (fun v => (v : ℚ))) K = K (i :: t)
+    show evalRec (n :: ns) (((i : ℚ)) :: t.map (fun (v : Nat) => (v : ℚ))) K = K (i :: t)
     rw [evalRec, interpHat_vertex n _ i hi]
     exact ih t (fun t => K (i :: t)) ht
 
@@ -665,14 +665,14 @@ theorem clip_of_inRange : ∀ (sizes : List Nat) (x : List ℚ), InRange sizes x
     split_ifs <;> linarith
 
 theorem inRange_vertex : ∀ (sizes : List Nat) (idx : Idx), idx ∈ allIdx sizes →
-    InRange sizes (idx.map (fun v => (v : ℚ))) := by
+    InRange sizes (idx.map (fun (v : Nat) => (v : ℚ))) := by
   intro sizes
   induction sizes with
   | nil => intro idx h; rw [mem_allIdx_nil.mp h]; simp [InRange]
   | cons n ns ih =>
     intro idx h
     obtain ⟨i, t, rfl, hi, ht⟩ := allIdx_cons_exists h
-    show InRange (n :: ns) ((i : ℚ) :: t.map (fun v => (v : ℚ)))
+    show InRange (n :: ns) ((i : ℚ) :: t.map (fun (v : Nat) => (v : ℚ)))
     refine ⟨⟨by positivity, ?_⟩, ih t ht⟩
     have : (i : ℚ) + 1 ≤ n := by exact_mod_cast hi
     linarith
